@@ -1574,6 +1574,21 @@ func (w *RouteWorld) trafficSig() string {
 			sig = "ack-hand-off-blocked-on-ended-receiver"
 		}
 	}
+	// a surviving instance merged the crashed instance's state after it had been told that the
+	// instance is gone (C09's recorded finding): it keeps naming the dead instance as an owner
+	// and routes acknowledgements and tasks for those shards into the void
+	if w.mlnet != nil {
+		for _, d := range w.insts {
+			if !d.dead {
+				continue
+			}
+			for _, a := range w.insts {
+				if !a.dead && w.mlnet.MergedAfterLeave(a.name, d.name) {
+					sig = "state-merged-after-leave-notification"
+				}
+			}
+		}
+	}
 	return sig
 }
 
